@@ -1,6 +1,7 @@
 import Pike.Lemmas.SysStore
 import Pike.Props.C01
 import Pike.Props.C03
+import Pike.Spec.Skeleton
 /-
 C04 — a stored response is never served past its freshness lifetime.
 "Obtained" is the instant the entry became a hit (`createdAt`, the `complete` step).
@@ -10,6 +11,12 @@ namespace C04
 open Sys Entry
 
 theorem facts_ok : Facts.waiterRereadsEntry = false := C01.facts_handover.1
+
+/-- Obligation on the regenerated statement skeleton of `nowUnix`: the clock every lifetime is measured with is the
+wall clock read at each call (`time.Now().Unix()`); the hook in front of it only lets the harness substitute its own
+clock.  A cached or ticker-driven clock falls behind whenever the process is stalled, and every "while fewer than T+1
+seconds have elapsed" statement of the model is about real seconds. -/
+theorem clock_is_wall_clock : Facts.skel_nowUnix = Spec.Skeleton.nowUnix := by rfl
 
 /-- The lifetime T an entry is stored with is the freshness the origin declared (s-maxage, else
 max-age) minus the Age the response already had when pike obtained it — for the header-reading
